@@ -98,55 +98,55 @@ func NewTaintEngine(p *Prog) *TaintEngine {
 	t := &TaintEngine{P: p, Models: map[string]ExtModel{}, ReadOnly: map[string]bool{}, Sum: map[*ssa.Function]*TSummary{}, UsedModels: map[string]int{}}
 	// writers
 	for k, m := range map[string]ExtModel{
-		"crypto/cipher.Block.Encrypt":           {Writes: []int{0}},
-		"crypto/cipher.Block.Decrypt":           {Writes: []int{0}},
-		"crypto/cipher.BlockMode.CryptBlocks":   {Writes: []int{0}},
-		"crypto/cipher.Stream.XORKeyStream":     {Writes: []int{0}},
-		"crypto/cipher.AEAD.Seal":               {Writes: []int{0}, RetAlias: []int{0}},
-		"crypto/cipher.AEAD.Open":               {Writes: []int{0}, RetAlias: []int{0}},
-		"hash.Hash.Sum":                         {Writes: []int{0}, RetAlias: []int{0}},
-		"io.ReadFull":                           {Writes: []int{1}},
-		"io.ReadAtLeast":                        {Writes: []int{1}},
-		"io.Reader.Read":                        {Writes: []int{0}},
-		"crypto/rand.Read":                      {Writes: []int{0}},
-		"encoding/binary.bigEndian.PutUint16":   {Writes: []int{0}},
-		"encoding/binary.bigEndian.PutUint32":   {Writes: []int{0}},
-		"encoding/binary.bigEndian.PutUint64":   {Writes: []int{0}},
+		"crypto/cipher.Block.Encrypt":            {Writes: []int{0}},
+		"crypto/cipher.Block.Decrypt":            {Writes: []int{0}},
+		"crypto/cipher.BlockMode.CryptBlocks":    {Writes: []int{0}},
+		"crypto/cipher.Stream.XORKeyStream":      {Writes: []int{0}},
+		"crypto/cipher.AEAD.Seal":                {Writes: []int{0}, RetAlias: []int{0}},
+		"crypto/cipher.AEAD.Open":                {Writes: []int{0}, RetAlias: []int{0}},
+		"hash.Hash.Sum":                          {Writes: []int{0}, RetAlias: []int{0}},
+		"io.ReadFull":                            {Writes: []int{1}},
+		"io.ReadAtLeast":                         {Writes: []int{1}},
+		"io.Reader.Read":                         {Writes: []int{0}},
+		"crypto/rand.Read":                       {Writes: []int{0}},
+		"encoding/binary.bigEndian.PutUint16":    {Writes: []int{0}},
+		"encoding/binary.bigEndian.PutUint32":    {Writes: []int{0}},
+		"encoding/binary.bigEndian.PutUint64":    {Writes: []int{0}},
 		"encoding/binary.littleEndian.PutUint32": {Writes: []int{0}},
 		"encoding/binary.littleEndian.PutUint64": {Writes: []int{0}},
-		"encoding/binary.ByteOrder.PutUint32":   {Writes: []int{0}},
-		"encoding/binary.ByteOrder.PutUint64":   {Writes: []int{0}},
-		"encoding/base64.Encoding.Encode":       {Writes: []int{0}},
-		"encoding/base64.Encoding.Decode":       {Writes: []int{0}},
-		"encoding/hex.Encode":                   {Writes: []int{0}},
-		"encoding/hex.Decode":                   {Writes: []int{0}},
-		"crypto/subtle.XORBytes":                {Writes: []int{0}},
-		"crypto/subtle.ConstantTimeCopy":        {Writes: []int{1}},
-		"bytes.Buffer.Read":                     {Writes: []int{0}},
-		"sort.Slice":                            {Writes: []int{0}},
-		"slices.Sort":                           {Writes: []int{0}},
-		"slices.Reverse":                        {Writes: []int{0}},
+		"encoding/binary.ByteOrder.PutUint32":    {Writes: []int{0}},
+		"encoding/binary.ByteOrder.PutUint64":    {Writes: []int{0}},
+		"encoding/base64.Encoding.Encode":        {Writes: []int{0}},
+		"encoding/base64.Encoding.Decode":        {Writes: []int{0}},
+		"encoding/hex.Encode":                    {Writes: []int{0}},
+		"encoding/hex.Decode":                    {Writes: []int{0}},
+		"crypto/subtle.XORBytes":                 {Writes: []int{0}},
+		"crypto/subtle.ConstantTimeCopy":         {Writes: []int{1}},
+		"bytes.Buffer.Read":                      {Writes: []int{0}},
+		"sort.Slice":                             {Writes: []int{0}},
+		"slices.Sort":                            {Writes: []int{0}},
+		"slices.Reverse":                         {Writes: []int{0}},
 		// aliasers
-		"bytes.TrimRight":      {RetAlias: []int{0}},
-		"bytes.TrimLeft":       {RetAlias: []int{0}},
-		"bytes.TrimSpace":      {RetAlias: []int{0}},
-		"bytes.Trim":           {RetAlias: []int{0}},
-		"bytes.TrimPrefix":     {RetAlias: []int{0}},
-		"bytes.TrimSuffix":     {RetAlias: []int{0}},
-		"bytes.Split":          {RetAlias: []int{0}},
-		"bytes.SplitN":         {RetAlias: []int{0}},
-		"bytes.Fields":         {RetAlias: []int{0}},
-		"bytes.Cut":            {RetAlias: []int{0}},
-		"bytes.NewBuffer":      {RetAlias: []int{0}, Retains: []int{0}},
-		"bytes.NewReader":      {RetAlias: []int{0}, Retains: []int{0}},
-		"slices.Clip":          {RetAlias: []int{0}},
-		"slices.Grow":          {RetAlias: []int{0}},
-		"encoding/pem.Decode":  {RetAlias: []int{0}},
-		"sync.Pool.Put":        {Retains: []int{0}},
-		"io.Writer.Write":      {},
-		"io.PipeWriter.Write":  {},
-		"bytes.Buffer.Write":   {},
-		"hash.Hash.Write":      {},
+		"bytes.TrimRight":     {RetAlias: []int{0}},
+		"bytes.TrimLeft":      {RetAlias: []int{0}},
+		"bytes.TrimSpace":     {RetAlias: []int{0}},
+		"bytes.Trim":          {RetAlias: []int{0}},
+		"bytes.TrimPrefix":    {RetAlias: []int{0}},
+		"bytes.TrimSuffix":    {RetAlias: []int{0}},
+		"bytes.Split":         {RetAlias: []int{0}},
+		"bytes.SplitN":        {RetAlias: []int{0}},
+		"bytes.Fields":        {RetAlias: []int{0}},
+		"bytes.Cut":           {RetAlias: []int{0}},
+		"bytes.NewBuffer":     {RetAlias: []int{0}, Retains: []int{0}},
+		"bytes.NewReader":     {RetAlias: []int{0}, Retains: []int{0}},
+		"slices.Clip":         {RetAlias: []int{0}},
+		"slices.Grow":         {RetAlias: []int{0}},
+		"encoding/pem.Decode": {RetAlias: []int{0}},
+		"sync.Pool.Put":       {Retains: []int{0}},
+		"io.Writer.Write":     {},
+		"io.PipeWriter.Write": {},
+		"bytes.Buffer.Write":  {},
+		"hash.Hash.Write":     {},
 	} {
 		t.Models[k] = m
 	}
@@ -371,7 +371,7 @@ func (s *fnState) step(in ssa.Instruction) bool {
 	switch x := in.(type) {
 	case *ssa.Slice:
 		ch := s.add(x, s.get(x.X))
-		if x.Max != nil && x.High != nil && x.Max == x.High {
+		if x.Max != nil && x.High != nil && sameIntValue(x.Max, x.High) {
 			s.capped[x] = true
 		}
 		return ch
@@ -624,7 +624,7 @@ func (s *fnState) call(ci ssa.CallInstruction) bool {
 	}
 	tracked := false
 	for _, a := range args {
-		if len(s.get(a)) > 0 && (isTrackedType(a.Type())) {
+		if len(s.get(a)) > 0 && isTrackedType(a.Type()) && !isErrorType(a.Type()) {
 			tracked = true
 		}
 	}
@@ -731,4 +731,27 @@ func (t *TaintEngine) FieldRoots() map[string][]RootRef {
 		}
 	}
 	return out
+}
+
+// sameIntValue: a and b denote the same integer: the same SSA value, equal
+// constants, or len() of the same SSA value (go/ssa performs no CSE).
+func sameIntValue(a, b ssa.Value) bool {
+	if a == b {
+		return true
+	}
+	ka, oka := a.(*ssa.Const)
+	kb, okb := b.(*ssa.Const)
+	if oka && okb && ka.Value != nil && kb.Value != nil {
+		return ka.Value.ExactString() == kb.Value.ExactString()
+	}
+	ca, oka := a.(*ssa.Call)
+	cb, okb := b.(*ssa.Call)
+	if oka && okb && builtinName(ca) == "len" && builtinName(cb) == "len" {
+		return ca.Call.Args[0] == cb.Call.Args[0]
+	}
+	return false
+}
+
+func isErrorType(t types.Type) bool {
+	return types.Identical(t, types.Universe.Lookup("error").Type())
 }
